@@ -289,6 +289,9 @@ static void gen_segment(Rng& g, const Geo& G, const Rect& cur, std::vector<Query
   }
 }
 
+// CacheArea(s, w, n, e) clears the cache instead of setting one when s > n (documented) or when a limit is NaN / infinite
+// ("with nans (or infinite longitudes) the area is undefined"; path shown as never executed by the reach monitor)
+static bool area_clears(double s, double w, double n, double e) { return s > n || !(std::isfinite(s) && std::isfinite(w) && std::isfinite(n) && std::isfinite(e)) || std::fabs(s) > 90 || std::fabs(n) > 90; }
 static Op gen_cache_op(Rng& g, const Geo& G, const std::vector<Query>& Q, size_t near_q, Rect& cur, Ctx* c) {
   Op o; o.qi = -1; o.s = o.w = o.n = o.e = 0;
   const bool was_active = cur.active;
@@ -298,11 +301,13 @@ static Op gen_cache_op(Rng& g, const Geo& G, const std::vector<Query>& Q, size_t
   else {
     o.type = OP_AREA; const char* kind = "";
     gen_rect(g, G, Q, near_q, o.s, o.w, o.n, o.e, kind);
+    if (g.coin(0.05)) { static const double bad[] = {std::numeric_limits<double>::quiet_NaN(), std::numeric_limits<double>::infinity(), -std::numeric_limits<double>::infinity()};
+      double b = bad[g.below(3)]; switch (g.below(4)) { case 0: o.s = b; break; case 1: o.w = b; break; case 2: o.n = b; break; default: o.e = b; break; } kind = "non-finite-limit"; }
     if (c) c->event(std::string("CacheArea rectangle kind: ") + kind);
-    if (o.s > o.n) { cur.active = false; cur.all = false; } else { cur.active = true; cur.all = false; cur.s = o.s; cur.w = o.w; cur.n = o.n; cur.e = o.e; }
+    if (area_clears(o.s, o.w, o.n, o.e)) { cur.active = false; cur.all = false; } else { cur.active = true; cur.all = false; cur.s = o.s; cur.w = o.w; cur.n = o.n; cur.e = o.e; }
   }
   // allocation fault: the call is expected to end in GeographicErr and leave NO cache (most valuable right after a successful cache)
-  if (o.type != OP_CLEAR && !(o.type == OP_AREA && o.s > o.n) && g.coin(was_active ? 0.30 : 0.08)) {
+  if (o.type != OP_CLEAR && !(o.type == OP_AREA && area_clears(o.s, o.w, o.n, o.e)) && g.coin(was_active ? 0.30 : 0.08)) {
     o.failk = g.coin(0.7) ? 1 + (int)g.below(3) : 1 + (int)g.below(40);
     cur.active = false; cur.all = false;          // (if the fault does not fire because the call allocates less, the cache is simply on: labels come from the object)
     if (c) c->event("history operation planted: CacheArea/CacheAll with allocation fault");
@@ -364,8 +369,10 @@ struct CacheLawStats { uint64_t checked = 0; };
 static void check_cache_law(Ctx& c, const Geoid& g, const Op& o, const Ras& R, bool cubic) {
   const char* ip = cubic ? "cubic" : "bilinear";
   J w = J(R.j()).b("cubic", cubic).str("s", hexd(o.s)).str("w", hexd(o.w)).str("n", hexd(o.n)).str("e", hexd(o.e)).f("s_dec", o.s).f("w_dec", o.w).f("n_dec", o.n).f("e_dec", o.e);
-  if (o.type == OP_CLEAR || (o.type == OP_AREA && o.s > o.n)) {
+  if (o.type == OP_CLEAR || (o.type == OP_AREA && area_clears(o.s, o.w, o.n, o.e))) {
     if (g.Cache()) c.viol(std::string("law:C20/") + ip + "/cache-still-on-after-clear", "cache-law", w);
+    // the extent accessors are also driven without a cache (sanitizer reach only: their value in that state is not part of the property)
+    { volatile double sink = g.CacheWest() + g.CacheEast() + g.CacheNorth() + g.CacheSouth(); (void)sink; c.event("cache-extent accessors called without a cache (not judged)"); }
     return;
   }
   if (!g.Cache()) { c.viol(std::string("law:C20/") + ip + "/cache-off-after-CacheArea", "cache-law", w); return; }
